@@ -192,8 +192,27 @@ def run(P, R, tier):
     # ---------------------------------------------------------------- C16.d
     ga = P.cls(BASE + '.GeometryArray')
     nd = 0
+    deriv = []
     for name in ('__getitem__', 'take', '_concat_same_type', 'copy', 'fillna', 'astype'):
-        f = ga.members[name][1]
+        f0 = ga.members[name][1]
+        deriv.append((name, f0))
+        # helpers of the array class that a derivation calls (self._new_like(...), cls._rewrap(...))
+        for c0 in astq.own_calls(f0):
+            r0 = P.resolve_call(f0, c0)
+            if r0 and r0[0] == 'func' and r0[1].cls is not None and ga in (r0[1].cls.mro or []) and r0[1].name not in ('__getitem__', 'take', '_concat_same_type', 'copy', 'fillna', 'astype',
+                                                                                                                       'isna', '__len__', '__init__') \
+                    and not any(r0[1] is d[1] for d in deriv):
+                deriv.append((f'{name} -> {r0[1].name}', r0[1]))
+    # a derived array is (data, dtype) and nothing else: no attribute of the source is copied onto it (a flag such as "already oriented" or a cached value
+    # describes the SOURCE's rows, not the rows of a concatenation / selection)
+    for name, f in deriv:
+        for x in walk_own(f.node):
+            if isinstance(x, ast.Assign):
+                for t in x.targets:
+                    if isinstance(t, ast.Attribute) and isinstance(t.value, ast.Name) and t.value.id not in ('self', 'cls') and t.attr.startswith('_'):
+                        R.bad('C16.d', f, x, f'`{norm(x)}` in {name} copies state onto a derived array: the value was established for the source\'s rows and is wrong for a selection or concatenation',
+                              construct=f'{f.qualname}: state copied to the derived array')
+    for name, f in deriv:
         for s in ast.walk(f.node):
             if isinstance(s, ast.Call) and isinstance(s.func, (ast.Attribute, ast.Name, ast.Call)):
                 fn = norm(s.func)
